@@ -177,6 +177,9 @@ def build_pool() -> dict:
             cases.append([filler[: len(algo.accepts)], "00"])
         algos[key] = cases
         natl[key] = texts
+    if "ES:default" in algos:  # both special branches of the Spanish reconcile step
+        algos["ES:default"] += [[["0000", "0000", "0000000000"], "00"], [["0000", "0000", "1000000000"], "01"],
+                                [["1000", "0000", "0000000000"], "10"]]
     pool["algos"] = algos
     pool["natl_ibans"] = natl
 
